@@ -59,7 +59,7 @@ def soloPut (S : Sys) (s : State) (i : Pid) : State × List Call :=
       let s6 : State := { s5 with dir := upd (upd s5.dir r.dst (s5.dir tmp)) tmp none, pc := upd s5.pc i .renamed }
       ({ s6 with lock := none, pc := upd s6.pc i .done }, pre ++ [.lock, .read, .commit, .unlock])
     else
-      let s6 : State := { s5 with dir := upd (upd s5.dir (S.cname r.dst r.declared) (s5.dir tmp)) tmp none,
+      let s6 : State := { s5 with dir := upd (upd s5.dir (S.cname (view S s5) r.dst r.declared) (s5.dir tmp)) tmp none,
                                   pc := upd s5.pc i .renamed }
       ({ s6 with lock := none, pc := upd s6.pc i .done }, pre ++ [.lock, .read, .conflict, .unlock])
   else
